@@ -11,7 +11,7 @@ from harness.engine import Result
 ID = "C13"
 LEVEL = "exploration"
 RULE = ("Hypothesis draws a history (<= 12 steps, <= 5 solves) over the alphabet minimize(i) / maximize(i) / "
-        "subject_to(j) / subject_to([j,k]) / set_lb(v,b) / set_ub(v,b) / set the bound of one vector element / solve(m) / read variables / read "
+        "subject_to(j) / subject_to([j,k]) / set_lb(v,b) / set_ub(v,b) / set the bound of one vector element / a rejected subject_to([..., not-a-constraint]) / solve(m) / read variables / read "
         "n_variables / read get_bounds, over fixed pools of 9 objectives (linear, convex quadratic, smooth convex, "
         "negated ones for maximise, single-vector-only, fewer variables) and 10 constraints (linear <= >= ==, "
         "convex nonlinear, vector comparisons producing lists, an infeasible pair, one introducing a new "
@@ -107,7 +107,7 @@ def histories(draw):
         steps.append([draw(st.sampled_from(["minimize", "maximize"])), draw(st.integers(0, len(OBJECTIVES) - 1))])
     for _ in range(draw(st.integers(2, 11))):
         k = draw(st.sampled_from(["minimize", "maximize", "flip", "flip", "subject_to", "subject_to", "subject_to_list", "set_lb", "set_ub",
-                                  "set_elem_lb", "set_elem_ub",
+                                  "set_elem_lb", "set_elem_ub", "subject_to_bad_list",
                                   "solve", "solve", "solve", "variables", "n_variables", "get_bounds"]))
         if k in ("minimize", "maximize"):
             steps.append([k, draw(st.integers(0, len(OBJECTIVES) - 1))])
@@ -117,6 +117,10 @@ def histories(draw):
             steps.append([k, draw(st.integers(0, len(CONSTRAINTS) - 1))])
         elif k == "subject_to_list":
             steps.append([k, draw(st.lists(st.integers(0, len(CONSTRAINTS) - 1), min_size=1, max_size=3))])
+        elif k == "subject_to_bad_list":
+            # a list whose LAST item is not a constraint (a nested list / a bare expression): the call is rejected
+            steps.append([k, draw(st.lists(st.integers(0, len(CONSTRAINTS) - 1), min_size=1, max_size=2)),
+                          draw(st.sampled_from(["nested-list", "expression"]))])
         elif k in ("set_lb", "set_ub"):
             steps.append([k, draw(st.sampled_from(VARS)), draw(st.sampled_from(BOUNDS))])
         elif k in ("set_elem_lb", "set_elem_ub"):
@@ -281,6 +285,33 @@ def check(case):
                     flat += c if isinstance(c, list) else [c]
                 P.subject_to(flat)
                 state.cons.append(list(step[1]))
+                edits_since.append(k)
+            elif k == "subject_to_bad_list":
+                items, sizes = [], []
+                for j in step[1]:
+                    c = _make_con(b, CONSTRAINTS[j])
+                    flat_c = c if isinstance(c, list) else [c]
+                    items += flat_c
+                    sizes.append(len(flat_c))
+                items.append([objs["x"] >= -50] if step[2] == "nested-list" else objs["x"] + 1)
+                before = P.n_constraints
+                try:
+                    P.subject_to(items)
+                    classes.append("bad-list:accepted")
+                    return Result.inconclusive("bad-constraint-list-accepted", classes)
+                except Exception:
+                    classes.append("bad-list:rejected")
+                added = P.n_constraints - before
+                if added:
+                    # not all-or-nothing: the problem now holds the first `added` constraints of the list
+                    group, tot = [], 0
+                    for j, sz in zip(step[1], sizes):
+                        if tot + sz <= added:
+                            group.append(j)
+                            tot += sz
+                    if tot != added:
+                        return Result.inconclusive("bad-constraint-list-partially-added", classes)
+                    state.cons.append(group)
                 edits_since.append(k)
             elif k in ("set_lb", "set_ub"):
                 name, val = step[1], step[2]
